@@ -436,14 +436,18 @@ static void convert_pp_number(Token *tok) {
   long double val = strtold(tok->loc, &end);
 
   Type *ty;
+  // The constant is rounded once, to its own type (6.4.4.2p3), not
+  // first to long double and then to float or double.
   if (*end == 'f' || *end == 'F') {
     ty = ty_float;
+    val = strtof(tok->loc, NULL);
     end++;
   } else if (*end == 'l' || *end == 'L') {
     ty = ty_ldouble;
     end++;
   } else {
     ty = ty_double;
+    val = strtod(tok->loc, NULL);
   }
 
   if (tok->loc + tok->len != end)
